@@ -799,11 +799,15 @@ def _uncollapse_unary_chains(tree):
     """Recursively uncollapse unary chains.
     """
     unary = tree
+    top = tree
     while tree.data['label'].find("+") > -1:
         # tree.parent -> tree -> c1 .. cn
         # tree.parent -> unary -> tree -> c1 .. cn
         ind = tree.data['label'].find("+")
         unary = trees.Tree(tree.data)
+        if top is tree:
+            # the first node inserted stays the topmost one
+            top = unary
         unary.data['label'] = tree.data['label'][:ind]
         tree.data['label'] = tree.data['label'][ind + 1:]
         if tree.parent is not None:
@@ -814,7 +818,7 @@ def _uncollapse_unary_chains(tree):
         tree.parent = unary
     for child in trees.children(tree):
         _uncollapse_unary_chains(child)
-    return unary
+    return top
 
 
 def uncollapse_unary_chains(tree, **params):
